@@ -381,3 +381,60 @@ theorem verify_accepts_only_checked (buf keyName : Bytes) (now : Nat) (check : B
   · cases h
 
 end Dns.C18M
+
+namespace Dns.C18M
+open Dns Dns.MU
+
+theorem take_drop_slice (b : Bytes) (i j : Nat) (hij : i ≤ j) (hj : j ≤ b.length) :
+    b = b.take i ++ slice b i (j - i) ++ b.drop j := by
+  unfold slice
+  have h1 : b = b.take i ++ b.drop i := (List.take_append_drop i b).symm
+  have h2 : b.drop i = (b.drop i).take (j - i) ++ (b.drop i).drop (j - i) := (List.take_append_drop (j - i) (b.drop i)).symm
+  have h3 : (b.drop i).drop (j - i) = b.drop j := by rw [List.drop_drop]; congr 1; omega
+  rw [h3] at h2
+  conv => lhs; rw [h1, h2]
+  simp [List.append_assoc]
+
+/-- **tamper_changes_input_partial**: two buffers of the same length on which `Verify`'s walk finds the same offsets, and
+    for which the octets handed to the signature check — the hash input and the signature — are the same, are the same buffer
+    except possibly inside the SIG record's own header (the eleven octets between the body end and the SIG RDATA, which this
+    library does not sign): altering any other octet of a signed message changes what is verified.
+    (Partial: alterations that move the offsets of the walk are not covered by this statement.) -/
+theorem tamper_changes_input_partial (b b' : Bytes) (w w' : SigWalk) (hl : b.length = b'.length)
+    (hb : w.bodyend = w'.bodyend) (hs : w.sigstart = w'.sigstart) (he : w.sigend = w'.sigend) (ha : w.adc % 65536 = w'.adc % 65536)
+    (h12 : 12 ≤ w.bodyend) (hbs : w.bodyend ≤ w.sigstart) (hse : w.sigstart ≤ w.sigend) (hel : w.sigend ≤ b.length)
+    (hin : sigHashInput b w = sigHashInput b' w') (hsig : b.drop w.sigend = b'.drop w'.sigend) :
+    b.take 10 = b'.take 10 ∧ slice b 12 (w.bodyend - 12) = slice b' 12 (w.bodyend - 12) ∧ b.drop w.sigstart = b'.drop w.sigstart := by
+  unfold sigHashInput at hin
+  rw [← hb, ← hs, ← he] at hin
+  have len_slice : ∀ (x : Bytes) (i n : Nat), i + n ≤ x.length → (slice x i n).length = n := by
+    intro x i n h; unfold slice; simp; omega
+  have l1 : (slice b w.sigstart (w.sigend - w.sigstart)).length = (slice b' w.sigstart (w.sigend - w.sigstart)).length := by
+    rw [len_slice b _ _ (by omega), len_slice b' _ _ (by omega)]
+  simp only [List.append_assoc] at hin
+  obtain ⟨e1, r1⟩ := List.append_inj hin l1
+  have l2 : (b.take 10).length = (b'.take 10).length := by simp; omega
+  obtain ⟨e2, r2⟩ := List.append_inj r1 l2
+  have l3 : ([UInt8.ofNat ((w.adc + 65535) % 65536 / 256 % 256), UInt8.ofNat ((w.adc + 65535) % 65536 % 256)] : Bytes).length =
+      ([UInt8.ofNat ((w'.adc + 65535) % 65536 / 256 % 256), UInt8.ofNat ((w'.adc + 65535) % 65536 % 256)] : Bytes).length := by
+    simp only [List.length_cons, List.length_nil]
+  obtain ⟨_, e4⟩ := List.append_inj r2 l3
+  refine ⟨e2, e4, ?_⟩
+  -- the RDATA and the signature together are everything from sigstart on
+  have d1 : b.drop w.sigstart = slice b w.sigstart (w.sigend - w.sigstart) ++ b.drop w.sigend := by
+    unfold slice
+    have := (List.take_append_drop (w.sigend - w.sigstart) (b.drop w.sigstart)).symm
+    rw [List.drop_drop] at this
+    have e : w.sigstart + (w.sigend - w.sigstart) = w.sigend := by omega
+    rw [e] at this
+    exact this
+  have d2 : b'.drop w.sigstart = slice b' w.sigstart (w.sigend - w.sigstart) ++ b'.drop w.sigend := by
+    unfold slice
+    have := (List.take_append_drop (w.sigend - w.sigstart) (b'.drop w.sigstart)).symm
+    rw [List.drop_drop] at this
+    have e : w.sigstart + (w.sigend - w.sigstart) = w.sigend := by omega
+    rw [e] at this
+    exact this
+  rw [d1, d2, e1, hsig, ← he]
+
+end Dns.C18M
